@@ -487,6 +487,9 @@ class Node:
         if not attr_node.is_sequence():
             return
 
+        if not all(item.is_mapping() for item in attr_node.seq_items()):
+            return
+
         start_mark = attr_node.yaml_node.start_mark
         end_mark = attr_node.yaml_node.end_mark
 
@@ -614,6 +617,11 @@ class Node:
         if not attr_node.is_mapping():
             return
 
+        if value_attribute is None and not all(
+                isinstance(item_value, yaml.MappingNode)
+                for _, item_value in attr_node.yaml_node.value):
+            return      # invalid format
+
         start_mark = attr_node.yaml_node.start_mark
         end_mark = attr_node.yaml_node.end_mark
         object_list = []
@@ -739,12 +747,13 @@ class Node:
         if not attr_node.is_mapping():
             return
 
+        if not all(
+                isinstance(value_node, yaml.MappingNode)
+                for _, value_node in attr_node.yaml_node.value):
+            return
+
         new_value = list()
         for key_node, value_node in attr_node.yaml_node.value:
-            if not isinstance(value_node, yaml.MappingNode):
-                raise SeasoningError(
-                    'Values must be mappings for key "{}"'.format(attribute))
-
             # filter out key atttribute
             value_node.value = [
                     (k, v) for k, v in value_node.value
@@ -869,6 +878,11 @@ class Node:
 
         attr_node = self.get_attribute(attribute)
         if not attr_node.is_mapping():
+            return
+
+        if value_attribute is None and not all(
+                isinstance(value_node, yaml.MappingNode)
+                for _, value_node in attr_node.yaml_node.value):
             return
 
         new_value = list()
